@@ -139,7 +139,15 @@ IdealEnumerator(ev, c, tag, i) == IF ev.en[tag].vals[i] # c.en[tag].vals[i] THEN
 
 \* structs whose use is an error, and everything that needs one of them by value
 BrokenSUs(ev, c, fl) == {key \in DOMAIN ev.su : IdealSU(ev, c, fl, key) # "ok"}
-DependsOnBroken(ev, c, fl, t) == NeedsClosure(ev.su, NeedsNow(t)) \cap BrokenSUs(ev, c, fl) # {}
+\* ... and every type that mentions (also behind pointers) an enum with a disagreeing enumerator, or
+\* needs by value a struct that has such a field: building the ctype realizes the enum
+BrokenEnums(ev, c) == {g \in DOMAIN ev.en : \E i \in DOMAIN ev.en[g].vals : IdealEnumerator(ev, c, g, i) # "ok"}
+TypeEnums(ev, t) ==
+  EnumsOf(t) \cup UNION {UNION {EnumsOf(ev.su[k].fields[i][2]) : i \in DOMAIN ev.su[k].fields}
+                         : k \in {k2 \in NeedsClosure(ev.su, NeedsNow(t)) : k2 \in DOMAIN ev.su}}
+DependsOnBroken(ev, c, fl, t) ==
+  \/ NeedsClosure(ev.su, NeedsNow(t)) \cap BrokenSUs(ev, c, fl) # {}
+  \/ TypeEnums(ev, t) \cap BrokenEnums(ev, c) # {}
 
 (* ------------------------------------------------------------------ the implementation model *)
 ModelSU(ev, c, fl, key) ==
